@@ -47,6 +47,12 @@ def task(W, payload):
             prog["build"].insert(at, {"op": "flow", "kind": "import", "name": "imports", "param": {"p": "shr"}, "dst": ip[0]["dist"][tgt][0], "split": False})
             bump(out, "one_parameter_in_two_roles")
     if any(op["op"] == "init_pop_array" for op in prog["build"]): bump(out, "array_population")
+    # every second program: some parameters carry nested (dotted) names, as models configured from nested dictionaries do
+    if payload["index"] % 2 == 1 and prog["params"]:
+        ren = {k: (f"grp.{k}" if i % 2 == 0 else f"cfg.sub.{k}") for i, k in enumerate(sorted(prog["params"])) if i % 3 != 2}
+        prog["build"] = map_program_exprs(prog["build"], lambda e: ({"p": ren.get(e["p"], e["p"])} if "p" in e else e))
+        prog["params"] = {ren.get(k, k): v for k, v in prog["params"].items()}
+        bump(out, "nested_parameter_names")
     from interp import Interp
     I = Interp()
     for op in prog["build"]:
